@@ -82,10 +82,9 @@ def handle : Handler := fun op args =>
     | .ok () => some "ok"
     | .error e => some (showErr e)
   | "vm_der", [sig] => do
-    match sigdecodeDer (← parseHex? sig) with
-    | .ok (r, s) => some s!"ok {r} {s}"
-    | .error .unexpected => some "err caught"
-    | .error .typeError => some "err TypeError"
+    match sigdecodeDerLax (← parseHex? sig) with
+    | some (r, s) => some s!"ok {r} {s}"
+    | none => some "err caught"
   | "vm_sigenc", [flags, sig] => do
     match parseAndCheckSignatureBlob (← parseHex? sig) (← parseNat? flags) with
     | .ok .parsed => some "ok parsed"
@@ -95,7 +94,7 @@ def handle : Handler := fun op args =>
     match checkPublicKeyEncoding (← parseHex? k) with
     | .ok () => some "ok"
     | .error e => some (showErr e)
-  | "vm_secshape", [k, strict] => do some ("ok " ++ showBool (secShapeOk (← parseHex? k) (← parseBool? strict)))
+  | "vm_secshape", [k] => do some ("ok " ++ showBool (pubkeyShapeOk (← parseHex? k)))
   | "vm_wpv", [script] => do
     match witnessProgramVersion (← parseHex? script) with
     | some v => some s!"ok {v}"
